@@ -50,7 +50,12 @@ pub fn cleanup() {
 
 impl Bus {
     pub fn attach(iface: &str) -> Self {
-        let dir = root().join(iface);
+        Self::attach_at(&root(), iface)
+    }
+
+    /// Attach to a bus below another root (the bus of a child process).
+    pub fn attach_at(root: &std::path::Path, iface: &str) -> Self {
+        let dir = root.join(iface);
         std::fs::create_dir_all(&dir).unwrap();
         let own = dir.join("harness.sock");
         let _ = std::fs::remove_file(&own);
